@@ -59,6 +59,7 @@ def main() -> int:
     t0 = time.time()
     mod = importlib.import_module(f"props.{prop.lower()}")
     ctx = Ctx(prop, a.tier, seed)
+    common.use_property(prop)
 
     if a.replay:
         payload = json.loads(Path(a.replay).read_text())
